@@ -214,6 +214,9 @@ func indepObserve(path string, back map[string]string) (lib.Ev, lib.Ev) {
 				d.Chunk = toInts(o.Chunk)
 			}
 			d.F64, d.Str, d.Cmp = readRes{Res: "err", Data: noData}, readRes{Res: "err", Data: noData}, readRes{Res: "err", Data: noData}
+			if len(o.Filters) > 0 { // the decoder does not undo filters: the values are not judged through this view
+				d.F64, d.Str, d.Cmp = readRes{Res: "unsupported", Data: noData}, readRes{Res: "unsupported", Data: noData}, readRes{Res: "unsupported", Data: noData}
+			}
 			if v, ok := indepFloats(o); ok && (o.Type.Size == 4 || o.Type.Size == 8) {
 				d.F64 = readRes{Res: "ok", Data: descF64(v)}
 			}
